@@ -130,7 +130,17 @@ def case_line(layout, mode, buf, freq, cfg, port, events):
 
 # ---------------------------------------------------------------- random histories
 NAMES_DYN = ["a", "b", "c1", "d/e", "xn", "f%20g"]
+# names that are proper prefixes of each other / of a static resource, or differ only behind an
+# escaped character (the blank becomes %20 in the resource name)
+NAMES_PREFIX = ["a", "ab", "abc", "f ", "f g", "f h", "s0x", "s0/1"]
 NAMES_STATIC = ["s0", "s1"]
+
+
+def res_name(path):
+    """the name the resource created by PUT <path> gets (coap_get_uri_path escapes every
+    character outside is_unescaped_in_path, e.g. the blank and the percent sign)"""
+    keep = "ABCDEFGHIJKLMNOPQRSTUVWXYZabcdefghijklmnopqrstuvwxyz0123456789-._~!$'()*+,;=:@&/"
+    return "".join(ch if ch in keep else "%%%02X" % ord(ch) for ch in path)
 
 
 class HistGen:
@@ -143,7 +153,7 @@ class HistGen:
         self.subs = []          # (name, client, token, query)
         self.max_events = max_events
         self.allow_restart = allow_restart
-        self.names = names or NAMES_DYN
+        self.names = names or (NAMES_PREFIX if r.random() < 0.35 else NAMES_DYN)
 
     def next_mid(self):
         self.mid = (self.mid + 1) & 0xffff
@@ -195,7 +205,7 @@ class HistGen:
                 names = sorted(set(s[0] for s in self.subs)) or sorted(self.res) or NAMES_STATIC
                 name = r.choice(names)
                 for _ in range(r.choice([1, 1, 2, 3, 7])):
-                    evs.append(ev_notify(name))
+                    evs.append(ev_notify(res_name(name)))
             elif self.allow_restart:
                 evs.append(ev_crash(-1 if r.random() < 0.5 else r.randrange(0, 60)))
         return evs
@@ -210,8 +220,8 @@ def raw_history(r, layout, max_events=9, big=False):
     """direct calls of the six updaters with arbitrary binary records (keys and names drawn
     from small pools so that replace / delete hit existing entries)"""
     keys = [rbytes(r, 8) for _ in range(4)]
-    dnames = [b"a", b"bb", b"a b", b"\x00\xff\n", rbytes(r, r.choice([1, 3, 40])), b"n" * 300]
-    cnames = [b"a", b"bb", b"r/s", b"%20x", b"z" * r.choice([1, 100, 1486, 1487])]
+    dnames = [b"a", b"ab", b"bb", b"a b", b"\x00\xff\n", rbytes(r, r.choice([1, 3, 40])), b"n" * 300]
+    cnames = [b"a", b"ab", b"abc", b"bb", b"r/s", b"%20x", b"%20", b"z" * r.choice([1, 100, 1486, 1487])]
     sizes = [1, 2, 4, 9, 23, 200, 1472] + ([65535, 65536] if big else [])
     evs = []
     for _ in range(r.randint(2, max_events)):
